@@ -53,6 +53,21 @@ def draw_triple(draw):
                 boundary = (second, variant)
             except (schema.TypeErr, KeyError):
                 a["nodes"].pop()
+    if boundary is None and g.boolean(0.2):
+        # a ENDS in an order_rows without limit (a step the builder may drop), b BEGINS with a top-k that has its own
+        # order columns, a non-empty reverse and a limit: nothing of b's step may get lost when the two meet
+        first = gen.step_order_rows(g, sa, final=False)
+        second = gen.step_order_rows(g, sa, final=False)
+        if first is not None and second is not None and second["cols"]:
+            first["limit"] = None
+            if second["limit"] is None:
+                second["limit"] = g.pick([1, 2, 3])
+            if not second["reverse"]:
+                second["reverse"] = g.subset(second["cols"], lo=1, hi=len(second["cols"]))
+            first["src"] = a["root"]
+            a["nodes"].append(first)
+            a["root"] = len(a["nodes"]) - 1
+            boundary = (second, "order_rows_topk")
     bcfg = {"given_tables": {"mid": table_from_schema(sa)}, "only_given": True, "n_tables": (1, 1), "max_nodes": 4, "final_order": 0.15, "ops": B_OPS, "reuse_bias": True}
     if boundary is None:
         b = gen.draw_program(draw, bcfg)
